@@ -117,8 +117,8 @@ R4 = {
  "C02": "normal form of start/end sanity tests in the text coordinate space; no default-limit bufio.Scanner in the readers",
  "C03": "call-graph cover of explicit panics by a deferred converter from Reader.Read; exact interval analysis of byte-derived subscripts of fixed-size tables",
  "C04": "no default-limit bufio.Scanner in the readers",
- "C06": "parallel-index rule (two slices indexed by one counter have provably equal length); commit-together rule for the two results of Trim",
- "C07": "path evidence for both ends in IsFlush; watermark exit test of the prefix-doubling fill loops",
+ "C06": "parallel-index rule (two slices indexed by one counter have provably equal length); commit-together rule for the two results of Trim; non-negativity of every Make length (structural or by difference constraints)",
+ "C07": "path evidence for both ends in IsFlush; watermark exit test of the prefix-doubling fill loops; no reflect.New on the dynamic pointer type of a row",
  "C08": "DP table freshly zeroed; running-maximum choice of the traceback start layer",
  "C09": "block emission independent of the accumulated score; DP table freshly zeroed",
  "C10": "no exported method returns an internal table; difference-constraint proof that the first reported position is >= start; lock-step linear relation between reported position and last letter read",
